@@ -35,28 +35,37 @@ ASSUMPTIONS = ['values: Python == coincides with structural equality (generators
                'merge/non-slice-dim/widened-not-simplified, kept in the random stream and in corpus/C06)',
                'keys that are None at every position may be absent or stored as the global constant None (the literal '
                'Spec.canonical, which forbids the latter, is refuted: C06_subset_canonical_refuted, C06_none_dropped_refuted)',
-               'the random streams stay outside the regions of the open findings N1-N4 (trailing-singleton shapes, merges along '
-               'time/vector without a slice dimension), as extlib does',
+               'an exception of from_sequence / get_subset on these (valid, in-range) inputs is reported as a failure, unless case and '
+               'observation show exactly the mechanism of an open finding of C03 / C04 (N1, N3, N4 / N2: extlib.finding_sig_merge / '
+               'finding_sig_subset), which those properties report',
+               'expected output shape, slice dimension and affine come from the arguments of the case, never from the result; an '
+               'input contributes no per-slice meta data when its slice direction differs from the result affine: both the affine row '
+               '(what the library compares) and the affine column (see N13 of C08) are accepted as "direction"',
+               'N6 is recognised key by key: along a non-slice spatial axis the key is left in a wider class in which one of the SOURCES '
+               'already stored it non-canonically; any other key at a non-simplest class is a new failure',
                "_simplify's table entry ('vector','slices') -> ('time','samples') keeps T values where T*V are needed "
                '(C06_simplify_vslices_tsamples_refuted); no public operation reaches it, excluded by hypothesis simplify_dom',
                'key order of the result is not modelled']
 
 N6_SIG = 'merge/non-slice-dim/widened-not-simplified'
+AXNAME = {None: 'nonslice', 0: 'slice', 1: 'time', 2: 'vector'}
 
 
 # ------------------------------------------------------------------------------------------------ reference helpers
+# Everything the oracles EXPECT comes from the case (generator truth): output shape, slice dim, affine.  The result is only
+# read for what the property is about: under which class a key is stored, and how many values it holds there.
 
 def fn_of(E, k, drop=False):
     return lambda p: den(E, k, p, drop)
 
 
+def key_is_canonical(E, k):
+    return canon_class(E['shape'], dims(E), fn_of(E, k)) == class_of(E, k)
+
+
 def is_canonical_E(E):
     """Every key of E sits at extlib's canon_class of what it denotes."""
-    d = dims(E)
-    for k, c, _ in E['entries']:
-        if canon_class(E['shape'], d, fn_of(E, k)) != c:
-            return False
-    return True
+    return all(key_is_canonical(E, k) for k, _, _ in E['entries'])
 
 
 def class_of(E, k):
@@ -66,19 +75,155 @@ def class_of(E, k):
     return None
 
 
-def judge_key(R, k, f, what):
-    """Property C06 for key k of the real result R whose per-position values ought to be f (a function on R's grid)."""
-    dR = dims(R)
-    vals = [f(p) for p in grid(dR)]
+def values_of(E, k):
+    for kk, _, vs in E['entries']:
+        if kk == k:
+            return vs
+    return None
+
+
+def judge_key(G, R, k, f, what):
+    """Property C06 for key k of the real result R on the EXPECTED grid G = {'shape', 'sdim'}; f = the per-position values
+    the sources define.  -> None | dict(key, got, want, msg)."""
+    dG = dims(G)
+    vals = [f(p) for p in grid(dG)]
     got = class_of(R, k)
+    if got is not None and not class_ok(G['shape'], got):
+        return {'key': k, 'got': got, 'want': None,
+                'msg': 'key %r is stored under %s, which does not exist for shape %r' % (k, got, G['shape'])}
     if all(v is None for v in vals):
         if got not in (None, 'GConst'):
-            return 'key %r is None at every position but is stored under %s' % (k, got)
+            return {'key': k, 'got': got, 'want': 'GConst', 'msg': 'key %r is None at every position but is stored under %s' % (k, got)}
         return None
-    want = canon_class(R['shape'], dR, f)
+    want = canon_class(G['shape'], dG, f)
     if got != want:
-        return 'key %r: %s stored under %s, simplest class able to represent its values is %s' % (k, what, got, want)
+        return {'key': k, 'got': got, 'want': want,
+                'msg': 'key %r: %s stored under %s, simplest class able to represent its values is %s' % (k, what, got, want)}
+    n = len(values_of(R, k))
+    if n != mult(dG, got):
+        return {'key': k, 'got': got, 'want': want,
+                'msg': 'key %r is stored under %s with %d values, that class holds %d' % (k, got, n, mult(dG, got))}
     return None
+
+
+def expected_merge(case):
+    """(output shape, slice dim, affine) of the merge, from the arguments alone."""
+    exts, dim = case['exts'], case['dim']
+    out_shape = list(exts[0]['shape'])
+    while len(out_shape) <= dim:
+        out_shape.append(1)
+    out_shape[dim] = len(exts)
+    sd = case.get('sdim_arg') if case.get('sdim_arg') is not None else exts[0]['sdim']
+    aff = case.get('aff') if case.get('aff') is not None else exts[0]['aff']
+    return out_shape, sd, aff
+
+
+def drop_lists(case):
+    """Which inputs contribute no per-slice meta data (their slice direction differs from the result's).  Two readings of
+    "slice direction" are accepted: the affine ROW the library compares today and the affine COLUMN (open finding N13 of
+    C08 is about exactly that choice; C06 does not depend on it)."""
+    from fractions import Fraction
+    _, sd, aff = expected_merge(case)
+    out = []
+    for pick in (lambda A, d: [Fraction(x) for x in A[d][:3]], lambda A, d: [Fraction(A[i][d]) for i in range(3)]):
+        rn = None if sd is None else pick(aff, sd)
+        drops = []
+        for E in case['exts']:
+            en = None if E['sdim'] is None else pick(E['aff'], E['sdim'])
+            drops.append(not (rn is not None and en is not None and allclose(rn, en)))
+        if drops not in out:
+            out.append(drops)
+    return out
+
+
+def merge_failures(case, R, drops):
+    """All C06 failures of the real result R of a merge, key by key: list of dict(key, got, want, msg, n6)."""
+    exts, dim = case['exts'], case['dim']
+    out_shape, sd, _ = expected_merge(case)
+    G = {'shape': out_shape, 'sdim': sd}
+    ax = merge_axis_kind(dim, sd)
+    fails = []
+    for k in keys_of(R, *exts):
+        if ax is None:
+            # nothing is recombined along a non-slice spatial axis: the key is kept iff every source says the same
+            tabs = [[den(E, k, p, dr) for p in grid(dims(E))] for E, dr in zip(exts, drops)]
+            if any(t != tabs[0] for t in tabs):
+                continue                     # whether it is dropped is C03's clause
+            j = judge_key(G, R, k, lambda p, k=k: den(exts[0], k, p, drops[0]), 'the (unchanged) values are')
+        else:
+            def f(p, k=k):
+                q = list(p)
+                i = q[ax]
+                q[ax] = 0
+                return den(exts[i], k, tuple(q), drops[i])
+            j = judge_key(G, R, k, f, 'the values of the %d sources are' % len(exts))
+        if j:
+            # the mechanism of N6: along a non-slice spatial axis, the key is left in a wider class in which one of the
+            # SOURCES already stored it although a simpler class could represent that source's values
+            j['n6'] = bool(ax is None and j['want'] is not None and j['got'] is not None and
+                           any(class_of(E, k) == j['got'] and not (dr and PYCLS[j['got']][1] == 'slices') and
+                               not key_is_canonical(E, k) for E, dr in zip(exts, drops)))
+            fails.append(j)
+    return fails
+
+
+def merge_verdict(case, obs):
+    """-> (message, signature) or (None, None).  Collects every failure and prefers one that is not the known finding."""
+    exts, dim = case['exts'], case['dim']
+    out_shape, sd, _ = expected_merge(case)
+    axn = AXNAME[merge_axis_kind(dim, sd)]
+    if 'ext' not in obs:
+        if extlib.finding_sig_merge(case, obs) is not None:
+            return None, None                # exactly the mechanism of an open finding of C03 (N1 / N3 / N4): reported there
+        # otherwise the streams stay inside the domain on which from_sequence must produce an extension
+        return ('from_sequence(dim=%d) of %d valid inputs raised %s: no extension, no classification' %
+                (dim, len(exts), obs.get('exc') or obs.get('err')), 'merge/%s/raised/%s' % (axn, obs.get('exc') or obs.get('err')))
+    R = obs['ext']
+    if R['shape'] != out_shape:
+        return ('cannot judge the classes: result shape %r, expected %r' % (R['shape'], out_shape), 'merge/%s/wrong-shape' % axn)
+    best = None
+    for drops in drop_lists(case):
+        fails = merge_failures(case, R, drops)
+        if not fails:
+            return None, None
+        if best is None:
+            best = fails
+    new = [j for j in best if not j['n6']]
+    if new:
+        return new[0]['msg'], 'merge/%s/not-simplest-class' % axn
+    return best[0]['msg'], N6_SIG
+
+
+def subset_verdict(case, obs):
+    E, dim, idx = case['ext'], case['dim'], case['idx']
+    if dim >= len(E['shape']) or idx >= E['shape'][dim]:
+        return None, None                    # outside the property (C04 judges the refusal)
+    fam = AXNAME[merge_axis_kind(dim, E['sdim'])]
+    if 'ext' not in obs:
+        if extlib.finding_sig_subset(case, obs) is not None:
+            return None, None                # exactly the mechanism of the open finding N2 of C04: reported there
+        return ('get_subset(%d, %d) of a valid extension raised %s: no extension, no classification' %
+                (dim, idx, obs.get('exc') or obs.get('err')), 'subset/%s/raised/%s' % (fam, obs.get('exc') or obs.get('err')))
+    R = obs['ext']
+    G = {'shape': extlib.subset_shape(E['shape'], dim), 'sdim': E['sdim']}
+    if R['shape'] != G['shape']:
+        return ('cannot judge the classes: result shape %r, expected %r' % (R['shape'], G['shape']), 'subset/%s/wrong-shape' % fam)
+    ax = merge_axis_kind(dim, E['sdim'])
+    for k in keys_of(E, R):
+        # the property speaks of splitting a CANONICAL extension; get_subset works key by key, so every key that sits at
+        # its simplest class is judged, whatever the other keys do
+        if class_of(E, k) is not None and not key_is_canonical(E, k):
+            continue
+
+        def f(p, k=k):
+            q = list(p)
+            if ax is not None:
+                q[ax] = idx
+            return den(E, k, tuple(q))
+        j = judge_key(G, R, k, f, 'the values of piece %d along dim %d are' % (idx, dim))
+        if j:
+            return j['msg'], 'subset/%s/not-simplest-class' % fam
+    return None, None
 
 
 # ------------------------------------------------------------------------------------------------ generators
@@ -174,6 +319,98 @@ def gen_struct_subset(rng, tier):
     return mk_E(sh, sdim, gen_affine(rng), ents)
 
 
+
+def shifted_affine(rng, aff):
+    """Same directions, another origin."""
+    a = copy.deepcopy(aff)
+    for i in range(3):
+        a[i][3] = a[i][3] + rng.choice([0.0, 1.0, -2.5, 4.0])
+    return a
+
+
+def gen_hole_merge(rng, tier):
+    """Regions the other streams never reach although the library supports them (AUDIT-2 section 7): (X,Y,Z,1) inputs merged
+    along time, 3-D inputs without a slice dimension merged along time / vector (constants only), an explicit affine argument
+    different from the inputs' (other origin: nothing changes; other slice direction: every per-slice key is ignored), six or
+    seven inputs."""
+    which = rng.choice(['t1-time', 'nosdim-time', 'nosdim-vec', 'aff-shift', 'aff-normal', 'many'])
+    hi = 3
+    sdim = rng.choice([0, 1, 2])
+    sh = [rng.randint(1, 2) for _ in range(3)]
+    n = rng.randint(2, 4)
+    affarg = None
+    if which == 't1-time':
+        sh[sdim] = rng.randint(2, hi)
+        sh.append(1)
+        dim = 3
+    elif which.startswith('nosdim'):
+        sdim = None
+        dim = 3 if which == 'nosdim-time' else 4
+    elif which == 'many':
+        n = rng.randint(6, 7)
+        dim = rng.choice([sdim, 3, 4])
+        sh[sdim] = 1 if dim == sdim else 2
+        if dim == sdim:
+            sh.append(2)
+    else:
+        dim = rng.choice([sdim, 3])
+        sh[sdim] = 1 if dim == sdim else rng.randint(2, hi)
+        if dim == sdim:
+            sh.append(rng.randint(2, hi))
+    out_shape = list(sh)
+    while len(out_shape) <= dim:
+        out_shape.append(1)
+    out_shape[dim] = n
+    d_in = dims({'shape': sh, 'sdim': sdim})
+    d_out = dims({'shape': out_shape, 'sdim': sdim})
+    ax = merge_axis_kind(dim, sdim)
+    aff = gen_affine(rng)
+    if which == 'aff-shift':
+        affarg = shifted_affine(rng, aff)
+    elif which == 'aff-normal':
+        affarg = extlib.other_normal_affine(rng, aff, sdim)
+    widen = 0.0 if sdim is None else rng.choice([0.0, 0.5])
+    per_input = [dict() for _ in range(n)]
+    for k in rng.sample(KEYNAMES, rng.randint(1, 3)):
+        al = gen_alphabet(rng)
+        if sdim is None:
+            f = gen_fn(rng, d_out, rng.choice(['const', 'time', 'vec', 'vol', 'const_none_some']), alphabet=al)
+        else:
+            f = gen_defect_fn(rng, d_out, al) if rng.random() < 0.4 else gen_fn(rng, d_out, rng.choice(STRUCT), alphabet=al)
+        for i in range(n):
+            e = encode(rng, sh, sdim, restrict(f, d_out, ax, i, d_in), widen)
+            if e is not None:
+                per_input[i][k] = e
+    exts = [mk_E(sh, sdim, aff, per_input[i]) for i in range(n)]
+    return {'kind': 'hole/%s' % which, 'exts': exts, 'dim': dim, 'aff': affarg, 'sdim_arg': None}
+
+
+def gen_hole_subsets(rng, tier):
+    """Canonical extensions whose shape ends in a singleton axis, every (dim, idx) outside the mechanism of N2."""
+    sdim = rng.choice([0, 1, 2])
+    sh = [rng.randint(1, 2) for _ in range(3)]
+    sh[sdim] = rng.randint(2, 3)
+    if rng.random() < 0.5:
+        sh.append(1)
+    else:
+        sh += [rng.randint(2, 3), 1]
+    d = dims({'shape': sh, 'sdim': sdim})
+    ents = {}
+    for k in rng.sample(KEYNAMES, rng.randint(1, 3)):
+        al = gen_alphabet(rng)
+        f = gen_defect_fn(rng, d, al) if rng.random() < 0.4 else gen_fn(rng, d, rng.choice(STRUCT), alphabet=al)
+        e = encode(rng, sh, sdim, f, 0.0)
+        if e is not None:
+            ents[k] = e
+    E = mk_E(sh, sdim, gen_affine(rng), ents)
+    out = []
+    for c in extlib.gen_subset_all(E):
+        if extlib.n2_vanishing_base(E, c['dim']) is None:
+            c['kind'] = 'hole/subset-trailing1/%dD' % len(sh)
+            out.append(c)
+    return out
+
+
 # ------------------------------------------------------------------------------------------------ parts
 
 class Merge:
@@ -184,18 +421,22 @@ class Merge:
     CORR_SHOW = extlib.MergePart.CORR_SHOW
     SHARD = 60
     IMPL_TIMEOUT = 20
-    RULE = ('from_sequence of 2..5 inputs that are the restrictions of total functions on the OUTPUT grid: (a) extlib.gen_merge_case '
+    RULE = ('from_sequence of 2..7 inputs that are the restrictions of total functions on the OUTPUT grid: (a) extlib.gen_merge_case '
             '(all five merge dims, 3-5 D incl. (X,Y,Z,1,V), 11 value patterns, keys missing from some inputs, differing slice '
             'normals, widened inputs); (b) structured stream: slice / time / vector merges whose output has >= 3 periods for every '
             'test of _simplify (S,T,V in 2..3, 3..4 inputs), patterns const / per-vector / per-time / per-volume / per-slice / '
             'per-slice-and-time, each also with ONE position changed anywhere (first, middle, last period); canonical and widened '
-            'classes per input; non-trivial = some key of the result sits in a varying class, or some input key does')
+            'classes per input; (c) (X,Y,Z,1) inputs along time, inputs without a slice dimension along time / vector, an affine '
+            'argument with another origin or another slice direction, 6-7 inputs; expected shape / slice dim / affine are taken '
+            'from the arguments, never from the result; non-trivial = some key of the result sits in a varying class, or some '
+            'input key does')
 
     @staticmethod
     def gen_cases(rng, tier):
-        n1, n2 = (260, 420) if tier == 'quick' else (2000, 3500)
+        n1, n2, n3 = (260, 420, 120) if tier == 'quick' else (2000, 3500, 1000)
         cases = [extlib.gen_merge_case(rng, tier) for _ in range(n1)]
         cases += [gen_struct_merge(rng, tier) for _ in range(n2)]
+        cases += [gen_hole_merge(rng, tier) for _ in range(n3)]
         return cases
 
     run_impl = staticmethod(extlib.run_merge)
@@ -205,46 +446,13 @@ class Merge:
     def oracle(case, obs):
         if 'crash' in obs:
             return 'harness: %s' % obs.get('msg')
-        if 'ext' not in obs:
-            return None                     # errors are C03's business (and the finding regions are outside the streams)
-        exts, dim, R = case['exts'], case['dim'], obs['ext']
-        sh = exts[0]['shape']
-        out_shape = list(sh)
-        while len(out_shape) <= dim:
-            out_shape.append(1)
-        out_shape[dim] = len(exts)
-        if R['shape'] != out_shape:
-            return None                     # C03
-        rn = slice_normal(R)
-        drops = []
-        for E in exts:
-            en = slice_normal(E)
-            drops.append(not (rn is not None and en is not None and allclose(rn, en)))
-        ax = merge_axis_kind(dim, R['sdim'])
-        for k in keys_of(R, *exts):
-            if ax is None:
-                # nothing is recombined along a non-slice spatial axis: judge the key by what the result itself denotes
-                if class_of(R, k) is None:
-                    continue
-                m = judge_key(R, k, fn_of(R, k), 'the (unchanged) values are')
-            else:
-                def f(p, k=k):
-                    q = list(p)
-                    i = q[ax]
-                    q[ax] = 0
-                    return den(exts[i], k, tuple(q), drops[i])
-                m = judge_key(R, k, f, 'the values of the %d sources are' % len(exts))
-            if m:
-                return m
-        return None
+        return merge_verdict(case, obs)[0]
 
     @staticmethod
     def signature(case, obs, msg):
-        exts, dim = case['exts'], case['dim']
-        sd = case.get('sdim_arg') if case.get('sdim_arg') is not None else exts[0]['sdim']
-        if 'ext' in obs and dim < 3 and dim != sd and any(not is_canonical_E(E) for E in exts):
-            return N6_SIG
-        return 'merge/%s/dim%d/not-simplest-class' % (extlib.shape_family(exts[0]['shape']), dim)
+        if 'crash' in obs:
+            return 'crash/merge/%s' % obs.get('crash')
+        return merge_verdict(case, obs)[1] or 'merge/none'
 
     @staticmethod
     def nontrivial(case, obs):
@@ -265,12 +473,14 @@ class Subset:
     SHARD = 100
     IMPL_TIMEOUT = 20
     RULE = ('get_subset(dim, idx): (a) extlib.gen_subset_case (random valid nondegenerate extensions, canonical and widened); '
-            '(b) canonical extensions with structured / one-position-defect patterns (S,T,V in 2..3), EVERY (dim, idx); the oracle '
-            'judges the cases whose input is canonical; non-trivial = some key in a varying class')
+            '(b) canonical extensions with structured / one-position-defect patterns (S,T,V in 2..3), EVERY (dim, idx); (c) canonical '
+            'extensions whose shape ends in a singleton axis, every (dim, idx) outside the mechanism of N2; the oracle judges every '
+            'KEY that sits at its simplest class in the input (get_subset works key by key); non-trivial = some judged key sits in '
+            'a varying class')
 
     @staticmethod
     def gen_cases(rng, tier):
-        n1, n2 = (150, 45) if tier == 'quick' else (1500, 300)
+        n1, n2, n3 = (150, 45, 12) if tier == 'quick' else (1500, 300, 100)
         cases = []
         for _ in range(n1):
             c = extlib.gen_subset_case(rng, tier)
@@ -279,6 +489,8 @@ class Subset:
             for c in extlib.gen_subset_all(gen_struct_subset(rng, tier)):
                 c['kind'] = 'struct/subset-all/%dD' % len(c['ext']['shape'])
                 cases.append(c)
+        for _ in range(n3):
+            cases += gen_hole_subsets(rng, tier)
         return cases
 
     run_impl = staticmethod(extlib.run_subset)
@@ -288,33 +500,18 @@ class Subset:
     def oracle(case, obs):
         if 'crash' in obs:
             return 'harness: %s' % obs.get('msg')
-        E, dim, idx = case['ext'], case['dim'], case['idx']
-        if 'ext' not in obs or dim >= len(E['shape']) or idx >= E['shape'][dim]:
-            return None
-        if not is_canonical_E(E):
-            return None                     # the property speaks of splitting a canonical extension
-        R = obs['ext']
-        if R['shape'] != extlib.subset_shape(E['shape'], dim):
-            return None                     # C04
-        ax = merge_axis_kind(dim, E['sdim'])
-        for k in keys_of(E, R):
-            def f(p, k=k):
-                q = list(p)
-                if ax is not None:
-                    q[ax] = idx
-                return den(E, k, tuple(q))
-            m = judge_key(R, k, f, 'the values of piece %d along dim %d are' % (idx, dim))
-            if m:
-                return m
-        return None
+        return subset_verdict(case, obs)[0]
 
     @staticmethod
     def signature(case, obs, msg):
-        return 'subset/%s/dim%d/not-simplest-class' % (extlib.shape_family(case['ext']['shape']), case['dim'])
+        if 'crash' in obs:
+            return 'crash/subset/%s' % obs.get('crash')
+        return subset_verdict(case, obs)[1] or 'subset/none'
 
     @staticmethod
     def nontrivial(case, obs):
-        return any(c != 'GConst' for _, c, _ in case['ext']['entries'])
+        E = case['ext']
+        return any(c != 'GConst' and key_is_canonical(E, k) for k, c, _ in E['entries'])
 
     shrink = staticmethod(extlib.SubsetPart.shrink)
 
